@@ -18,7 +18,7 @@ func propC11(c *Ctx) {
 	u2 := c.Rule("U2", "K1/K5 site table", "HandlePacket: checks, fresh packet, exact sender, clone after one trim", 10)
 	if fn := c.Fn(u2, "(*udp.endpoint).HandlePacket"); fn != nil {
 		m := map[string]string{
-			"VV":    "$3",                            // the inbound view as passed in
+			"VV":    "$3",                           // the inbound view as passed in
 			"VV2":   "new(buffer.VectorisedView)@2", // the same variable after exactly one mutation (the TrimFront)
 			"HDR":   "buffer.VectorisedView.First({VV})",
 			"LENOK": "!(buffer.VectorisedView.Size({VV}) < header.UDP.Length({HDR}))",
